@@ -13,6 +13,7 @@ CONSTANTS Shapes, IdSets, KeyChoices, CoeffChoices, RandChoices, MsgA, MsgB,
           MaxExtra, Deltas,      \* offsets used by the "add" kind
           Kinds,                 \* subset of {"add","neg","zero","other","sessB"}
           Modes,                 \* sequence of detection modes to run
+          MaxCheaters,           \* at most this many slots are not honest (size sweeps)
           EMIT
 
 VARIABLES pc, sc
@@ -45,7 +46,7 @@ MakeKp ==
 
 Choose ==
   /\ pc[1] = "choose"
-  /\ \E S \in SUBSET {sc.ids[k] : k \in 1..sc.n} :
+  /\ \E S \in (IF sc.t = sc.n THEN {{sc.ids[k] : k \in 1..sc.n}} ELSE SUBSET {sc.ids[k] : k \in 1..sc.n}) :
        /\ Card(S) >= sc.t /\ Card(S) <= sc.t + MaxExtra
        /\ sc' = sc @@ [S |-> Sorted(S)]
   /\ pc' = <<"commitA", 1>>
@@ -86,6 +87,7 @@ Tamper ==
   /\ LET i == sc.S[pc[2]]
          old == IF "slot" \in DOMAIN sc THEN sc.slot ELSE << >>
      IN \E kd \in KindsFor(i) :
+          /\ (kd[1] # "honest") => Card({j \in DOMAIN sc.kind : sc.kind[j][1] # "honest"}) < MaxCheaters
           /\ CASE kd[1] \in {"add", "neg", "zero"} ->
                     /\ ActTamperShare(<<"s", i>>, <<"zA", i>>, kd[1], kd[2])
                     /\ sc' = [sc EXCEPT !.slot = (i :> <<"s", i>>) @@ old, !.kind = (i :> kd) @@ sc.kind]
